@@ -141,8 +141,8 @@ class FieldType(abc.ABC):
     def _append_empty(self, num_obs, memo) -> None:
         """Add num_obs empty values to the end of the field"""
 
-    def fill_memo(self, memo):
-        memo[id(self.data)] = self.name
+    def fill_memo(self, memo, write_level=None, prefix=""):
+        memo[id(self.data)] = f"{prefix}{self.name}"
 
     def plot_values(self, field=None) -> np.array:
         """Return values of the field in a form that can be plotted"""
